@@ -119,7 +119,7 @@ class Encoder:
         """wire frame descriptor -> spec frame record"""
         k = f['k']
         s = self.s
-        if k in ('KeepAlive', 'Choke', 'Unchoke', 'Interested', 'NotInterested', 'Start', 'TickKA', 'TickStats'):
+        if k in ('KeepAlive', 'Choke', 'Unchoke', 'Interested', 'NotInterested', 'Start', 'TickKA', 'TickStats', 'Idle'):
             return {'t': k}
         if k == 'Handshake':
             r = {'t': k}
@@ -235,10 +235,7 @@ class Encoder:
                 elif ev == 'End':
                     rec['e'] = 'End'
                 else:
-                    reason = e['reason']
-                    why = 'hash' if ('hash mismatch' in reason or "Can't write" in reason) else 'keepalive' if 'Keep alive' in reason else \
-                        'badrequest' if ('in Request' in reason and not e.get('called') and e['trig'].get('k') == 'Request') else 'other'
-                    rec.update(e='Exit', why=why, reason=reason)
+                    rec.update(e='Exit', reason=e['reason'])     # the text is carried for reports only, never interpreted
                 out.append(rec)
         return out
 
